@@ -29,10 +29,10 @@ import (
 
 // squares: quick uses the first two, thorough all.
 var v6Layouts = []string{
-	"w2:TX1,A2,TAIL1",          // a namespace over two partial rows of the smallest extendable square
-	"w4:TX1,A9,B2,TAIL4",       // partial first row, full row, partial last row; a one-row namespace; a padding row
+	"w2:TX1,A2,TAIL1",           // a namespace over two partial rows of the smallest extendable square
+	"w4:TX1,A9,B2,TAIL4",        // partial first row, full row, partial last row; a one-row namespace; a padding row
 	"w4:TX2,PFB1,A6p1,B3,TAIL4", // reserved namespaces, namespace padding
-	"w2:A3,B1",                 // no padding at all
+	"w2:A3,B1",                  // no padding at all
 }
 
 // v6Seqs: all sequences over alpha of length <= maxLen in which a terminal symbol occurs only last.
@@ -117,7 +117,7 @@ func v6BsAlphabet(multi, thorough bool) []string {
 // not verifying (other coordinates, other square, changed share); not decodable (truncated); message
 // structure faults (missing / extra message); the three ways a peer refuses (NOT_FOUND, INTERNAL,
 // rate-limit reset); silence; refused dial.
-var v6DeepShrex = map[string]bool{"honest": true, "other:0": true, "othersq": true, "trunc": true, "truncmsg": true, "ext": true,
+var v6DeepShrex = map[string]bool{"honest": true, "other:0": true, "othersq": true, "longsq": true, "trunc": true, "truncmsg": true, "ext": true,
 	"gshare": true, "nf": true, "internal": true, "ratelimit": true, "hang": true, "dialfail": true}
 var v6DeepBs = map[string]bool{"honest": true, "forged-other": true, "othersq": true, "garbage": true, "silent": true, "ext": true}
 
@@ -524,15 +524,15 @@ func TestVerifC06(t *testing.T) {
 	rep.SetExhaustive(!capped.Load())
 	rep.Set("phases_completed", phasesDone)
 	rep.Set("bounds", map[string]any{
-		"squares":                      v6Layouts[:b.squares],
-		"shrex_answer_alphabet":        v6ShrexAnswers,
-		"bitswap_peer_alphabet":        v6BsKinds,
-		"shrex_sequence_length":        b.shrexLen,
-		"reduced_alphabets_at_length_3": map[string]any{"shrex": v6DeepShrex, "bitswap": v6DeepBs},
+		"squares":                             v6Layouts[:b.squares],
+		"shrex_answer_alphabet":               v6ShrexAnswers,
+		"bitswap_peer_alphabet":               v6BsKinds,
+		"shrex_sequence_length":               b.shrexLen,
+		"reduced_alphabets_at_length_3":       map[string]any{"shrex": v6DeepShrex, "bitswap": v6DeepBs},
 		"shrex_sequence_length_extra_squares": b.shrexLenX,
-		"bitswap_sequence_length":      b.bsLen,
-		"cascade_shrex_sequence_length": b.cascadeLen,
-		"wirings":                      []string{"shrex", "bs-light", "bs-bridge", "light", "bridge"},
+		"bitswap_sequence_length":             b.bsLen,
+		"cascade_shrex_sequence_length":       b.cascadeLen,
+		"wirings":                             []string{"shrex", "bs-light", "bs-bridge", "light", "bridge"},
 	})
 	var reqList []string
 	for _, s := range global {
